@@ -15,8 +15,16 @@ Qed.
 Lemma tokenize_raw_loop_eq s : tokenize_raw_loop s = tokenize_raw s.
 Proof. unfold tokenize_raw_loop, tokenize_raw. rewrite run_acc_run. reflexivity. Qed.
 
+Lemma drop_comments_acc_eq : forall ts acc, drop_comments_acc ts acc = rev acc ++ drop_comments ts.
+Proof.
+  induction ts as [|t r IH]; intros acc; cbn [drop_comments_acc].
+  - rewrite rev_append_rev. reflexivity.
+  - unfold drop_comments in *. cbn [filter]. destruct (is_comment t); cbn [negb]; rewrite IH; [reflexivity|].
+    cbn [rev]. rewrite <- app_assoc. reflexivity.
+Qed.
+
 Lemma tokenize_loop_eq s : tokenize_loop s = tokenize s.
-Proof. unfold tokenize_loop, tokenize. rewrite tokenize_raw_loop_eq. reflexivity. Qed.
+Proof. unfold tokenize_loop, tokenize. rewrite tokenize_raw_loop_eq, drop_comments_acc_eq. reflexivity. Qed.
 
 (* ---- every character is consumed: in exactly one token, or it is white space ---- *)
 Definition olist (o : option tok) : list tok := match o with Some t => [t] | None => [] end.
@@ -358,3 +366,135 @@ Proof. intros Hw H. unfold tokenize. rewrite tokenize_raw_print_with by assumpti
 
 Lemma tokenize_print_tokens ts : forallb tok_ok ts = true -> tokenize (print_tokens ts) = ts.
 Proof. apply tokenize_print_with. reflexivity. Qed.
+
+(* ---- comments and white space are skipped ---- *)
+Fixpoint outs (st : lst) (s : str) : list tok :=
+  match s with
+  | [] => []
+  | c :: r => olist (fst (step st c)) ++ outs (snd (step st c)) r
+  end.
+
+Lemma run_app : forall a st b, run st (a ++ b) = outs st a ++ run (state_after st a) b.
+Proof.
+  induction a as [|c r IH]; intros st b; [reflexivity|]. cbn [app run outs state_after].
+  destruct (step st c) as [[t|] st']; cbn [fst snd olist app]; rewrite IH; reflexivity.
+Qed.
+
+Definition clean (st : lst) : Prop := l_buf st = [] /\ l_mode st = MNone.
+
+Lemma run_clean_last l l' s : run (mkL [] MNone l) s = run (mkL [] MNone l') s.
+Proof. destruct s as [|c r]; [reflexivity|]. cbn [run]. unfold step. rewrite !decide_clean. reflexivity. Qed.
+
+Lemma run_clean st s : clean st -> run st s = run l_init s.
+Proof. destruct st as [b m l]. intros [Hb Hm]. cbn in Hb, Hm. subst. apply run_clean_last. Qed.
+
+Lemma outs_run_nil st a : l_buf (state_after st a) = [] -> run st a = outs st a.
+Proof. intros H. rewrite <- (app_nil_r a) at 1. rewrite run_app. cbn [run]. unfold flush. rewrite H. apply app_nil_r. Qed.
+
+(* inside a block comment *)
+Lemma step_block b l c : b <> [] -> in_single b = false -> last_is l 42 && (c =? 47) = false ->
+  step (mkL b MBlock l) c = (None, mkL (b ++ [c]) MBlock (Some c)).
+Proof.
+  intros Hb Hs Hq. unfold step, decide; cbn [l_buf l_mode l_last]. rewrite Hs. cbn [lmode_eqb andb]. rewrite Hq.
+  destruct ((c =? 42) && last_is l 47); destruct (is_breaker c); destruct (c =? 46); cbn [andb];
+    unfold settle; destruct (is_ws c); reflexivity.
+Qed.
+
+Lemma step_block_end b : in_single b = false ->
+  step (mkL b MBlock (Some 42)) 47 = (Some (b ++ [47]), mkL [] MNone None).
+Proof. intros Hs. unfold step, decide; cbn [l_buf l_mode l_last]. rewrite Hs. reflexivity. Qed.
+
+Lemma block_tail rest : forall body b l, b <> [] -> in_single b = false -> no_close l body = true ->
+  run (mkL b MBlock l) (body ++ 42 :: 47 :: rest) = (b ++ body ++ [42; 47]) :: run l_init rest.
+Proof.
+  induction body as [|c r IH]; intros b l Hb Hs Hp.
+  - cbn [app run]. rewrite step_block; [|assumption|assumption|rewrite andb_false_r; reflexivity].
+    rewrite step_block_end by (apply snoc_not_single; assumption). rewrite <- app_assoc. reflexivity.
+  - cbn [no_close] in Hp. apply andb_true_iff in Hp as [Hc Hr]. apply negb_true_iff in Hc. cbn [app run].
+    rewrite step_block by assumption.
+    rewrite IH; [rewrite <- app_assoc; reflexivity|apply snoc_not_nil|apply snoc_not_single; assumption|assumption].
+Qed.
+
+Lemma block_comment_run body rest l : no_close None body = true ->
+  run (mkL [] MNone l) (block_comment body ++ rest) = block_comment body :: run l_init rest.
+Proof.
+  intros H. unfold block_comment. rewrite <- !app_assoc. cbn [app run].
+  unfold step at 1. rewrite decide_clean. unfold settle at 1. cbn.
+  change (settle [47] MNone (Some 42)) with (mkL [47; 42] MBlock None).
+  rewrite (block_tail rest body [47; 42] None); [reflexivity|discriminate|reflexivity|assumption].
+Qed.
+
+(* a line comment up to the new line *)
+Lemma step_line b l c : b <> [] -> in_single b = false -> (c =? 10) = false ->
+  step (mkL b MLine l) c = (None, mkL (b ++ [c]) MLine (Some c)).
+Proof.
+  intros Hb Hs Hq. unfold step, decide; cbn [l_buf l_mode l_last]. rewrite Hs, Hq. cbn [lmode_eqb andb].
+  destruct ((c =? 42) && last_is l 47); destruct (is_breaker c); destruct (c =? 46); cbn [andb];
+    unfold settle; destruct (is_ws c); reflexivity.
+Qed.
+
+Lemma step_line_end b l : in_single b = false ->
+  step (mkL b MLine l) 10 = (Some b, mkL [] MNone (Some 10)).
+Proof. intros Hs. unfold step, decide; cbn [l_buf l_mode l_last]. rewrite Hs. reflexivity. Qed.
+
+Lemma line_tail rest : forall body b l, b <> [] -> in_single b = false ->
+  forallb (fun x => negb (x =? 10)) body = true ->
+  run (mkL b MLine l) (body ++ 10 :: rest) = (b ++ body) :: run l_init rest.
+Proof.
+  induction body as [|c r IH]; intros b l Hb Hs Hp.
+  - cbn [app run]. rewrite step_line_end by assumption. rewrite app_nil_r. f_equal. apply run_clean_last.
+  - cbn [forallb] in Hp. apply andb_true_iff in Hp as [Hc Hr]. apply negb_true_iff in Hc. cbn [app run].
+    rewrite step_line by assumption.
+    rewrite IH; [rewrite <- app_assoc; reflexivity|apply snoc_not_nil|apply snoc_not_single; assumption|assumption].
+Qed.
+
+Lemma line_comment_run body rest l : forallb (fun x => negb (x =? 10)) body = true ->
+  run (mkL [] MNone l) (line_comment body ++ 10 :: rest) = line_comment body :: run l_init rest.
+Proof.
+  intros H. unfold line_comment. rewrite <- !app_assoc. cbn [app run].
+  unfold step at 1. rewrite decide_clean. unfold settle at 1. cbn.
+  try change (settle [47] MNone (Some 47)) with (mkL [47; 47] MLine (Some 47)).
+  rewrite (line_tail rest body [47; 47]); [reflexivity|discriminate|reflexivity|assumption].
+Qed.
+
+(* the boundary condition: the factory is between tokens after [a] (empty buffer, no flag) *)
+Definition between_tokens (a : str) : Prop := clean (state_after l_init a).
+
+Lemma tokenize_raw_block_comment a body b : between_tokens a -> no_close None body = true ->
+  tokenize_raw (a ++ block_comment body ++ b) = tokenize_raw a ++ block_comment body :: tokenize_raw b.
+Proof.
+  intros [Hb Hm] Hn. unfold tokenize_raw. rewrite run_app. rewrite (outs_run_nil l_init a Hb). f_equal.
+  destruct (state_after l_init a) as [bb m l]. cbn in Hb, Hm. subst. apply block_comment_run; assumption.
+Qed.
+
+Lemma tokenize_raw_line_comment a body b : between_tokens a -> forallb (fun x => negb (x =? 10)) body = true ->
+  tokenize_raw (a ++ line_comment body ++ 10 :: b) = tokenize_raw a ++ line_comment body :: tokenize_raw b.
+Proof.
+  intros [Hb Hm] Hn. unfold tokenize_raw. rewrite run_app. rewrite (outs_run_nil l_init a Hb). f_equal.
+  destruct (state_after l_init a) as [bb m l]. cbn in Hb, Hm. subst. apply line_comment_run; assumption.
+Qed.
+
+Lemma drop_comments_app x y : drop_comments (x ++ y) = drop_comments x ++ drop_comments y.
+Proof. apply filter_app. Qed.
+
+Lemma tokenize_block_comment a body b : between_tokens a -> no_close None body = true ->
+  tokenize (a ++ block_comment body ++ b) = tokenize a ++ tokenize b.
+Proof.
+  intros Ha Hn. unfold tokenize. rewrite tokenize_raw_block_comment by assumption. rewrite drop_comments_app. reflexivity.
+Qed.
+
+Lemma tokenize_line_comment a body b : between_tokens a -> forallb (fun x => negb (x =? 10)) body = true ->
+  tokenize (a ++ line_comment body ++ 10 :: b) = tokenize a ++ tokenize b.
+Proof.
+  intros Ha Hn. unfold tokenize. rewrite tokenize_raw_line_comment by assumption. rewrite drop_comments_app. reflexivity.
+Qed.
+
+(* white space between tokens is skipped *)
+Lemma tokenize_raw_ws a w b : between_tokens a -> forallb is_ws w = true ->
+  tokenize_raw (a ++ w ++ b) = tokenize_raw a ++ tokenize_raw b.
+Proof.
+  intros [Hb Hm] Hw. unfold tokenize_raw. rewrite run_app. rewrite (outs_run_nil l_init a Hb). f_equal.
+  destruct (state_after l_init a) as [bb m l]. cbn in Hb, Hm. subst. clear a. revert l.
+  induction w as [|c r IH]; intros l; [apply run_clean_last|].
+  cbn [forallb] in Hw. apply andb_true_iff in Hw as [Hc Hr]. cbn [app run]. rewrite step_clean_ws by assumption. apply IH; assumption.
+Qed.
